@@ -23,6 +23,90 @@ def register(reg, prog):
     reg.declare_class('BlockwiseTuple', 'aiocoap.optiontypes:BlockOption.BlockwiseTuple',
                       nt=['block_number', 'more', 'size_exponent'])
 
+    DIRECTION = 'aiocoap.message:Direction'
+    OPT_VIEWS = {'block1': Opt(BLOCKTUPLE), 'block2': Opt(BLOCKTUPLE), 'observe': Opt(INT), 'no_response': Opt(INT),
+                 'etag': Opt(BYTES), 'size1': Opt(INT), 'size2': Opt(INT), 'uri_path': Seq(STR), 'uri_query': Seq(STR),
+                 'content_format': Opt(INT), 'accept': Opt(INT), 'uri_host': Opt(STR), 'uri_port': Opt(INT),
+                 'proxy_uri': Opt(STR), 'proxy_scheme': Opt(STR), 'echo': Opt(BYTES), 'oscore': Opt(BYTES),
+                 'uri_path_abbrev': Opt(INT), 'request_tag': Seq(BYTES), 'max_age': Opt(INT),
+                 'location_path': Seq(STR), 'location_query': Seq(STR), 'etags': Seq(BYTES), 'if_none_match': BOOL,
+                 'hop_limit': Opt(INT), 'edhoc': BOOL}
+    reg.classes['Options'].fields.update(OPT_VIEWS)
+    reg.assume('A-OPTVIEW: the option views of an Options object (opt.block1, opt.observe, ...) are modelled as independent '
+               'fields; their link to the codec dictionary `_options` is not modelled')
+    reg.declare_class('Message', 'aiocoap.message:Message', fields={
+        'version': INT, 'mtype': Opt(E(TYPE)), 'mid': Opt(INT), 'code': Opt(E(CODE)), 'token': BYTES, 'payload': BYTES,
+        'opt': Ref('Options'), 'remote': Opt(Ref('Remote')), 'direction': E(DIRECTION),
+        'transport_tuning': Ref('TransportTuning'), 'request': Opt(Ref('Message')),
+        '_original_request_path': Opt(Seq(STR))})
+    reg.declare_class('TransportTuning', 'aiocoap.numbers.constants:TransportTuning', fields={
+        'ACK_TIMEOUT': REAL, 'ACK_RANDOM_FACTOR': REAL, 'MAX_RETRANSMIT': INT, 'NSTART': INT,
+        'MAX_LATENCY': REAL, 'EMPTY_ACK_DELAY': REAL, 'reliability': Opt(BOOL),
+        'OBSERVATION_RESET_TIME': REAL, 'DEFAULT_BLOCK_SIZE_EXP': INT, 'DEFAULT_LEISURE': REAL})
+    reg.assume('A-TUNING: transport tuning parameters are read as fields of the tuning object attached to the message '
+               '(class attributes that subclasses may override)')
+    reg.declare_class('Remote', 'aiocoap.interfaces:EndpointAddress', interned=True, fields={
+        'is_multicast': BOOL, 'is_multicast_locally': BOOL, 'maximum_block_size_exp': INT, 'maximum_payload_size': INT,
+        'blockwise_key': ANY})
+    reg.assume('A-REMOTE: endpoint addresses are compared by identity of an abstract address value (their __eq__/__hash__ '
+               'are consistent and total)')
+
+    @reg.external('new:aiocoap.message:Message')
+    def _new_message(ex, st, args, kw, node):
+        """Message(...) -- assumed contract of Message.__init__ (conformance-tested natively): fields from the
+        underscore/plain keyword arguments, fresh empty Options, remaining keywords set option views."""
+        if args:
+            ex.unsupported(node, 'positional arguments to Message()')
+        kw = dict(kw)
+        m = ex.new_object(st, 'Message')
+        def put(attr, v):
+            ex.write_field(st, m, attr, reg.classes['Message'].fields[attr], v)
+        mt = kw.pop('_mtype', None) or kw.pop('mtype', None) or VNone()
+        put('mtype', mt)
+        put('mid', kw.pop('_mid', None) or kw.pop('mid', None) or VNone())
+        put('code', kw.pop('code', VNone()))
+        put('token', kw.pop('_token', None) or kw.pop('token', None) or VBytes.const(b''))
+        pl = kw.pop('payload', VBytes.const(b''))
+        if isinstance(pl, VStr) and pl.lit == '':
+            pl = VBytes.const(b'')
+        put('payload', pl)
+        put('version', VInt(1))
+        put('remote', VNone())
+        put('request', VNone())
+        put('_original_request_path', VNone())
+        from aiocoap.message import Direction
+        put('direction', ex.lift(st, Direction.OUTGOING))
+        tt = kw.pop('transport_tuning', None)
+        if tt is None or isinstance(tt, VNone):
+            tt = ex.new_object(st, 'TransportTuning')
+            default_tuning(ex, st, tt)
+        put('transport_tuning', tt)
+        o = ex.new_object(st, 'Options')
+        d = ex.new_dict(st, INT, List(Ref('OptionType')))
+        ex.write_field(st, o, '_options', reg.classes['Options'].fields['_options'], d)
+        for name, ty in OPT_VIEWS.items():
+            if ty[0] == 'opt':
+                ex.write_field(st, o, name, ty, VNone())
+            elif ty[0] == 'seq':
+                ex.write_field(st, o, name, ty, VTuple([]))
+            else:
+                ex.write_field(st, o, name, ty, VBool(False))
+        put('opt', o)
+        if 'uri' in kw:
+            ex.unsupported(node, 'Message(uri=...)')
+        for k, v in kw.items():
+            if k not in OPT_VIEWS:
+                ex.unsupported(node, 'Message(%s=...)' % k)
+            ex.write_field(st, o, k, OPT_VIEWS[k], v)
+        return [(st, m)]
+
+    def default_tuning(ex, st, tt):
+        from aiocoap.numbers.constants import TransportTuning
+        for name, ty in reg.classes['TransportTuning'].fields.items():
+            val = getattr(TransportTuning, name)
+            ex.write_field(st, tt, name, ty, ex.lift(st, val))
+    reg.default_tuning = default_tuning
+
     # OptionNumber.format: the serialisation class registered for a number.  The table is read
     # from the really imported module on every run (T-EXT: set_format is not called at run time).
     @reg.external('attr:%s.format' % OPTNUM)
